@@ -289,7 +289,7 @@ pub struct ExUtf8Error(std::str::Utf8Error);
     f.replace_all_re(r"\(\*(\w+) as char\)\.is_numeric\(\)", r"shim_byte_is_numeric(*\1)", "R2", why="char::is_numeric behind a shim (table validated natively)", min_count=1)
     f.replace_all_re(r"(\w+)\.iter\(\)\.position\(", r"shim_slice_position(\1, ", "R2", min_count=1)
     f.replace_all_re(r"&\[\] as &\[u8\]", "shim_empty_u8()", "R2", min_count=1)
-    f.replace_all_re(r"\bs\.parse\(\)", "shim_parse_usize(s)", "R2", why="str::parse::<usize> behind a shim with an abstract result", min_count=1)
+    f.replace_all_re(r"\b(\w+)\.parse\(\)", r"shim_parse_usize(\1)", "R2", why="str::parse::<usize> behind a shim with an abstract result", min_count=1)
     f.closure("|c|", params="|c: &u8|", ret="r: bool", spec="ensures r == ({specbody})", spec_map=[(r"\(\*(\w+) as char\)\.is_numeric\(\)", r"spec_byte_is_numeric(*\1)")])
     f.contract("""    ensures /*@L:number_is_the_maximal_digit_run:C05,C06*/ num_raw(bytes@, ret),
         ret is Ok ==> ret->Ok_0.1@.len() <= bytes@.len(),
